@@ -630,7 +630,7 @@ func Run(sc *Scenario, opt Options) *Trace {
 	}()
 	r.watchdog(done)
 	if r.pty != nil {
-		if b, err := r.pty.Sync(); err == nil {
+		if b, err := r.pty.SyncRaw(); err == nil {
 			r.tr.PtyStream = b
 		}
 		r.pty.Close()
